@@ -814,6 +814,14 @@ fn add_contradiction(r: &mut Rng, p: &mut Program, binary: bool) -> bool {
             // what a recovering shim owes the client is not fixed by the property)
             ru.recover = Some((gen_errkind(r), gen_errmsg(r)));
         }
+        // or the shim writes whole rows, skips the refused record and carries on with the
+        // rest: if the tree lets it (everything after the refused row reports success), the
+        // client must receive exactly the other rows
+        // (only for a row that is too short: a row with a cell too many is complete without it)
+        if matches!(ru.contra, Some(Contra::TooFewCols { .. })) && r.chance(1, 3) {
+            ru.write_row = true;
+            ru.recover = Some((crate::model::CARRY_ON, Blob::lit(b"")));
+        }
     }
     true
 }
